@@ -8,9 +8,79 @@ Nothing here may import z3 or numpy at module level.
 
 OPS = {}
 
+def _library_slots():
+    """(key, owner, attribute) of everything a call must leave alone: default arguments of every function and method of
+    the package, and the mutable containers that are class attributes (a call that edits one changes the behaviour of
+    every later call)"""
+    import sys, types
+    out = []
+    def fun(key, f):
+        f = getattr(f, "__func__", f)
+        depth = 0
+        while f is not None and depth < 5:           # decorated functions: the wrapper and what it wraps
+            if isinstance(f, types.FunctionType):
+                if f.__defaults__: out.append((f"{key}.__defaults__@{depth}", f, "__defaults__"))
+                if f.__kwdefaults__: out.append((f"{key}.__kwdefaults__@{depth}", f, "__kwdefaults__"))
+            f = getattr(f, "__wrapped__", None); depth += 1
+    for mname, mod in list(sys.modules.items()):
+        if not (mname == "dataiter" or mname.startswith("dataiter.")) or ".test" in mname or mod is None: continue
+        for name, v in list(vars(mod).items()):
+            if isinstance(v, types.FunctionType) and getattr(v, "__module__", None) == mname:
+                fun(f"{mname}.{name}", v)
+            elif isinstance(v, type) and getattr(v, "__module__", None) == mname:
+                for an, av in list(vars(v).items()):
+                    if isinstance(av, (types.FunctionType, classmethod, staticmethod)):
+                        fun(f"{mname}.{name}.{an}", av)
+                    elif isinstance(av, (dict, list, set)):
+                        out.append((f"{mname}.{name}.{an}", v, an))
+    return out
+
+def _rep(v):
+    try: return repr(v)
+    except Exception as e: return f"<unreprable {type(e).__name__}>"
+
+_PRISTINE = {}
+
+def _library_state_check():
+    """names of the slots that differ from their state at the first operation of this process; each is put back (so that
+    the finding does not depend on what ran before in the same process)"""
+    import copy
+    slots = _library_slots()
+    if not _PRISTINE:
+        for key, owner, attr in slots:
+            v = getattr(owner, attr)
+            try: saved = copy.deepcopy(v)
+            except Exception: saved = None
+            _PRISTINE[key] = (_rep(v), saved)
+        return []
+    changed = []
+    seen = set()
+    for key, owner, attr in slots:
+        seen.add(key)
+        if key not in _PRISTINE:
+            changed.append(key); continue
+        r0, saved = _PRISTINE[key]
+        if _rep(getattr(owner, attr)) != r0:
+            changed.append(key)
+            if saved is not None:
+                try: setattr(owner, attr, copy.deepcopy(saved))
+                except Exception: pass
+    changed += [k for k in _PRISTINE if k not in seen]
+    return sorted(changed)
+
 def op(f):
-    OPS[f.__name__] = f
-    return f
+    import functools
+    @functools.wraps(f)
+    def call(inp, W):
+        _library_state_check()          # first call: records the pristine state; later: restores what a raising op left behind
+        r = f(inp, W)
+        changed = _library_state_check()
+        if changed and isinstance(r, dict):
+            # reported only when it happened, so that results on an intact library are unchanged
+            r["library_state_changed"] = changed
+        return r
+    OPS[f.__name__] = call
+    return call
 
 class RealWorld:
     sym = False
